@@ -4,7 +4,7 @@
 package keygen
 
 // ---- round state invariants (established by the start function / the previous Finalize)
-//@ pred hok(h *round.Helper) := h != nil && h.hash != nil && h.hash.h != nil && h.info.Group != nil && !excl(h.mtx)
+//@ pred hok(h *round.Helper) := h != nil && h.hash != nil && h.hash.h != nil && h.info.Group != nil && !held(h.mtx)
 //@ pred r1ok(r *round1) := r != nil && hok(r.Helper) && r.privateShare != nil && r.publicKey != nil && r.verificationShares != nil && r.threshold >= 0
 //@ pred r2ok(r *round2) := r != nil && r1ok(r.round1) && r.f_i != nil && r.Phi != nil && r.ChainKeys != nil && r.ChainKeyCommitments != nil
 //@ pred r3ok(r *round3) := r != nil && r2ok(r.round2) && r.shareFrom != nil
@@ -51,3 +51,17 @@ package keygen
 //@   let body = msg.Content.(*message3)
 //@   ensures[C03,C02] result == nil ==> act(scval(body.F_li), gen()) == evalpt(r.Phi[msg.From], idsc(r.Helper.info.SelfID))
 //@   ensures[C03,C02] result == nil ==> r.shareFrom[msg.From] == body.F_li
+
+// ---- key material (C20): a Config/TaprootConfig as keygen/refresh or the decoder produce it
+//@ pred fcfgwf(c *Config) := c != nil && c.PrivateShare != nil && c.PublicKey != nil && c.VerificationShares != nil && c.VerificationShares.Points != nil && forall(k, party.ID, indom(c.VerificationShares.Points, k) ==> c.VerificationShares.Points[k] != nil)
+//@ pred tcfgwf(c *TaprootConfig) := c != nil && c.PrivateShare != nil && c.VerificationShares != nil && forall(k, party.ID, indom(c.VerificationShares, k) ==> c.VerificationShares[k] != nil)
+
+// ---- start function (C20)
+//@ func StartKeygenCommon$1
+//@   nopanic[C20]
+//@   requires group != nil
+//@   requires forall(k, party.ID, indom(verificationShares, k) ==> verificationShares[k] != nil)
+//@   ensures[C20] result1 != nil ==> result0 == nil
+//@   ensures[C20] result1 == nil ==> result0 != nil
+//@   loop 1: invariant fresh(verificationSharesCopy)
+//@   loop 2: invariant fresh(verificationSharesCopy)
